@@ -31,6 +31,7 @@ class Stream:
         self.reset_by_client = False
         self.stage = 0              # 0 nothing sent, 1 headers sent, 2 ended, 3 reset by server
         self.sent = 0
+        self.sent_events = []       # what the server put on this stream, in order: r | d<n> | e | x<code>
         self.unacked = 0            # flow-controlled bytes received and not yet credited back (manual credit mode)
 
 
@@ -254,6 +255,7 @@ class ManualH2Peer(simnet.H2Peer):
             st = self.streams[act[2]]
             self.conn.send_headers(st.sid, [(":status", "200"), ("x-token", (st.token or b"?").decode()), ("x-up", str(len(st.body)))])
             st.stage = 1
+            st.sent_events.append("r")
         elif kind == "data":
             st = self.streams[act[2]]
             win = min(self.conn.local_flow_control_window(st.sid), self.conn.max_outbound_frame_size)
@@ -265,15 +267,18 @@ class ManualH2Peer(simnet.H2Peer):
             n = min(st.down - st.sent, win, act[3] if len(act) > 3 else rng.choice([1, 7, 1000, 16384, 1 << 24]))
             self.conn.send_data(st.sid, want[st.sent:st.sent + n], pad_length=pad)
             st.sent += n
+            st.sent_events.append(f"d{n}")
         elif kind == "end":
             st = self.streams[act[2]]
             self.conn.end_stream(st.sid)
             st.stage = 2
+            st.sent_events.append("e")
         elif kind == "rst":
             st = self.streams[act[2]]
-            self.conn.reset_stream(st.sid, error_code=rng.choice([0, 2, 7, 8, 11]) if len(act) < 4 else act[3])
+            self.conn.reset_stream(st.sid, error_code=0 if len(act) < 4 else act[3])
             st.stage = 3
             st.rst_code = True
+            st.sent_events.append(f"x{act[3] if len(act) > 3 else 0}")
         elif kind == "maxstreams":
             self.conn.update_settings({h2.settings.SettingCodes.MAX_CONCURRENT_STREAMS: act[2]})
             self.pending_limits.append(act[2])
@@ -442,7 +447,10 @@ class H2Explorer(concur.Explorer):
             want = pattern(c.tokenb, c.down)
             if c.outcome == "ok":
                 hs = dict(c.headers or [])
-                if c.body != want or hs.get(b"x-token") != c.tokenb or c.status != 200:
+                if c.body != want and want.startswith(c.body or b"") and hs.get(b"x-token") == c.tokenb:
+                    self.violations.append(("C02:short-body-accepted", {"caller": c.idx, "got_len": len(c.body or b""), "want_len": len(want),
+                                                                        "trace_tail": [t for t in self.trace if t[0] in ("rst", "eof", "goaway")][-3:]}))
+                elif c.body != want or hs.get(b"x-token") != c.tokenb or c.status != 200:
                     self.violations.append(("C12:wrong-response", {"caller": c.idx, "got_len": len(c.body or b""), "want_len": len(want),
                                                                    "x-token": repr(hs.get(b"x-token"))}))
                 if hs.get(b"x-up") is not None and c.status == 200 and not self.cfg.get("early_response") and int(hs[b"x-up"]) != c.up:
